@@ -24,6 +24,17 @@ KeysOfOutput(w, t, o, S) == OutScriptKeys(TxOf(w, t).outs[o + 1]) \cap S
 
 StoredTx(ix, t) == {e \in ix.txs : e[1] = t}
 
+\* A transaction can be mined in several blocks of the world (on different branches: after a reorganisation most
+\* transactions of the abandoned blocks are mined again).  Every copy is a world transaction of its own (own
+\* block, own index, inputs named as they are known on its branch); w.txs[t].h is the class of copies with the
+\* same hash.  The store keys transactions by hash: its one record per hash names the position of ONE copy.
+Cls(w, t) == IF t >= 1 /\ t <= Len(w.txs) /\ "h" \in DOMAIN w.txs[t] THEN w.txs[t].h ELSE t
+StoredTxW(w, ix, t) == {e \in ix.txs : Cls(w, e[1]) = Cls(w, t)}
+\* the copy of t that is mined at (num, idx), t itself if there is none
+TwinAt(w, t, num, idx) ==
+    LET c == {u \in 1..Len(w.txs) : Cls(w, u) = Cls(w, t) /\ Num(w, w.txs[u].b) = num /\ w.txs[u].i = idx}
+    IN IF c = {} THEN t ELSE CHOOSE u \in c : TRUE
+
 RECURSIVE ApplyOutputs(_, _, _, _, _, _, _)
 ApplyOutputs(w, ix, t, num, ti, o, S) ==
     IF o >= Len(TxOf(w, t).outs) THEN ix
@@ -36,7 +47,7 @@ ApplyOutputs(w, ix, t, num, ti, o, S) ==
                                          \cup {<<k, num, ti, o, t>> : k \in ks},
                              !.hist  = {h \in @ : ~(h[1] \in ks /\ <<h[2], h[3], h[4], h[5]>> = <<num, ti, o, 1>>)}
                                          \cup {<<k, num, ti, o, 1, t>> : k \in ks},
-                             !.txs   = {e \in @ : e[1] # t} \cup {<<t, num, ti>>},
+                             !.txs   = {e \in @ : Cls(w, e[1]) # Cls(w, t)} \cup {<<t, num, ti>>},
                              !.hit   = TRUE],
              t, num, ti, o + 1, S)
 
@@ -52,8 +63,8 @@ ApplyInputs(w, ix, t, num, ti, ii, S, local, db) ==
              \* get_transaction(prev) from the store, else the block-local map
              gen == IF pt = 0 THEN <<>>
                     ELSE IF pt \in DOMAIN local THEN <<num, local[pt]>>
-                    ELSE IF StoredTx(db, pt) # {}
-                         THEN LET e == CHOOSE e \in StoredTx(db, pt) : TRUE IN <<e[2], e[3]>>
+                    ELSE IF StoredTxW(w, db, pt) # {}
+                         THEN LET e == CHOOSE e \in StoredTxW(w, db, pt) : TRUE IN <<e[2], e[3]>>
                     ELSE <<>>
              ks == IF gen = <<>> \/ pt = 0 THEN {}
                    ELSE IF po + 1 > Len(TxOf(w, pt).outs) THEN {}
@@ -63,7 +74,7 @@ ApplyInputs(w, ix, t, num, ti, ii, S, local, db) ==
              ELSE [ix EXCEPT !.cells = {c \in @ : ~(c[1] \in ks /\ <<c[2], c[3], c[4]>> = <<gen[1], gen[2], po>>)},
                              !.hist  = {h \in @ : ~(h[1] \in ks /\ <<h[2], h[3], h[4], h[5]>> = <<num, ti, ii, 0>>)}
                                          \cup {<<k, num, ti, ii, 0, t>> : k \in ks},
-                             !.txs   = {e \in @ : e[1] # t} \cup {<<t, num, ti>>},
+                             !.txs   = {e \in @ : Cls(w, e[1]) # Cls(w, t)} \cup {<<t, num, ti>>},
                              !.hit   = TRUE],
              t, num, ti, ii + 1, S, local, db)
 
@@ -97,10 +108,10 @@ Rollback(w, ix, x, R) ==
     LET gone == {h \in ix.hist : h[1] \in R /\ h[2] >= x}
         restored == UNION {
             LET prev == TxOf(w, h[6]).ins[h[4] + 1]
-                st == StoredTx(ix, prev[1])
+                st == StoredTxW(w, ix, prev[1])
             IN IF st = {} THEN {}
                ELSE LET e == CHOOSE e \in st : TRUE IN
-                    IF e[2] >= x THEN {} ELSE {<<h[1], e[2], e[3], prev[2], prev[1]>>}
+                    IF e[2] >= x THEN {} ELSE {<<h[1], e[2], e[3], prev[2], TwinAt(w, prev[1], e[2], e[3])>>}
             : h \in {g \in gone : g[5] = 0}}
         created == {<<h[1], h[2], h[3], h[4], h[6]>> : h \in {g \in gone : g[5] = 1}}
     IN [ix EXCEPT !.hist = @ \ gone, !.cells = (@ \ created) \cup restored]
